@@ -86,7 +86,7 @@ func (w *World) drawOutcome(call *Call, shared []*common.ErrorResponse) {
 			call.Out = Outcome{Kind: "nilentity"}
 		}
 	case 5: // success with an overridden status
-		if call.Out.Kind == "value" && !strings.Contains(call.Method, "Create") {
+		if call.Out.Kind == "value" && call.Method != "BatchCreate" {
 			call.Out.Status = []int{200, 202, 203}[w.c.Choose(3, "status-override")]
 		}
 	}
@@ -129,6 +129,7 @@ func checkOutcome(c *harness.Ctx, w *World, call *Call, where string) {
 			c.Probe("status-overridden")
 		}
 		if call.Method == "Create" && len(call.Inv) == 1 && len(call.Inv[0].RetsUsed) > 0 && !call.Inv[0].RetsUsed[0].IsNil() {
+			// the status in the returned CreatedEntity wins over one set through the request context
 			if st := call.Inv[0].RetsUsed[0].Elem().FieldByName("Status"); st.IsValid() && st.Int() != 0 {
 				want = int(st.Int())
 			}
